@@ -434,6 +434,87 @@ def run_factors(ctx, B):
                         B.add('freqs n={} len={} shift={}'.format(n, m, int(shift)), cb3)
 
 
+def run_factors_nd(ctx, B):
+    """dft_preprocess_data / dft_postprocess_data on n-d arrays: every per-axis shift tuple x axes
+    subset (incl. orders) x sign on shapes with equal AND unequal lengths, against (oracle) the
+    documented per-axis factors exp(sign*i*k*s*xi0) resp. exp(sign*i*x0*xi)*kernel and (model) the
+    outer product of the model's per-axis exponents."""
+    odl = _odl()
+    from odl.trafos.util.ft_utils import (dft_preprocess_data, dft_postprocess_data,
+                                          reciprocal_grid)
+    shapes = [(3, 3), (4, 4), (2, 3), (3, 3, 3), (4, 2, 4)] if ctx.quick else EQUAL_SHAPES + [(2, 3), (5, 4, 3)]
+    for shape in shapes:
+        nd = len(shape)
+        grid = odl.uniform_grid([0.25] * nd, [0.25 + (k - 1) * 0.5 for k in shape], shape)
+        for axes in axes_subsets(nd):
+            for shifts in itertools.product((True, False), repeat=len(axes)):
+                for sign in ('-', '+'):
+                    sg = -1.0 if sign == '-' else 1.0
+                    desc = {'kind': 'factors_nd', 'shape': shape, 'axes': axes, 'shifts': shifts,
+                            'sign': sign}
+                    mix = mixed_equal(shape, axes, shifts)
+                    cls = 'mixed-shift-equal-lengths' if mix else (
+                        'mixed-shift' if len(set(shifts)) > 1 else 'uniform-shift')
+                    ctx.case(('pre_nd', shape, axes, shifts, sign))
+                    ctx.hit('factors_nd/' + cls)
+                    if mix:
+                        ctx.hit('factors/mixed shift + equal lengths')
+                    key = 'dft_preprocess_data nd axes={} shifts={} sign={} {}'.format(
+                        axes, shifts, sign, cls)
+                    p, e = safe(lambda: dft_preprocess_data(np.ones(shape, dtype=complex), shift=shifts,
+                                                            axes=axes, sign=sign))
+                    if e is not None:
+                        viol(ctx, key, repr(e)[:300], desc)
+                        continue
+                    ref = np.ones(shape, dtype=complex)
+                    for ax, sh in zip(axes, shifts):
+                        n = shape[ax]
+                        xi0, _, _ = documented_recip_axis(n, 0.5, sh, False)
+                        f1 = np.exp(sg * 1j * np.arange(n) * 0.5 * xi0)
+                        ref = ref * f1.reshape([n if a == ax else 1 for a in range(nd)])
+                    if np.max(np.abs(p - ref)) > 1e-11:
+                        i = np.unravel_index(int(np.argmax(np.abs(p - ref))), shape)
+                        viol(ctx, key, 'pre-processing factor at index {} is {} but the documented '
+                             'prod_axes exp(sign*i*k*s*xi0) is {}'.format(i, p[i], ref[i]), desc)
+                    # model: exponents per axis
+                    answers = {}
+
+                    def finish(p=p, desc=desc, axes=axes, answers=answers, shape=shape, nd=nd):
+                        m = np.ones(shape, dtype=complex)
+                        for ax in axes:
+                            q = np.array([float(v) for v in answers[ax]])
+                            m = m * np.exp(1j * PI * q).reshape([len(q) if a == ax else 1 for a in range(nd)])
+                        if np.max(np.abs(m - p)) > 1e-11:
+                            ctx.disagree(desc, 'n-d pre-processing factors ' + str(p.ravel()[:4]),
+                                         'outer product of the model factors ' + str(m.ravel()[:4]))
+                    for idx, (ax, sh) in enumerate(zip(axes, shifts)):
+                        def cb(ans, ax=ax, last=(idx == len(axes) - 1), answers=answers, finish=finish):
+                            answers[ax] = core.pfl(fields(ans)['q'])
+                            if last:
+                                finish()
+                        B.add('pre n={} shift={} plus={}'.format(shape[ax], int(sh), int(sign == '+')), cb)
+                    # post-processing on the full reciprocal grid
+                    rg, e = safe(lambda: reciprocal_grid(grid, shift=shifts, axes=axes))
+                    q, e2 = safe(lambda: dft_postprocess_data(np.ones(rg.shape, dtype=complex), grid, rg,
+                                                              shifts, axes, 'nearest', sign=sign))
+                    key2 = 'dft_postprocess_data nd axes={} shifts={} sign={} {}'.format(
+                        axes, shifts, sign, cls)
+                    if e is not None or e2 is not None:
+                        viol(ctx, key2, repr(e or e2)[:300], desc)
+                        continue
+                    ref = np.ones(shape, dtype=complex)
+                    for ax, sh in zip(axes, shifts):
+                        n = shape[ax]
+                        xi0, sig, _ = documented_recip_axis(n, 0.5, sh, False)
+                        xi = xi0 + np.arange(n) * sig
+                        f1 = np.exp(sg * 1j * grid.min_pt[ax] * xi) * 0.5 * np.sinc(xi * 0.5 / (2 * PI)) / np.sqrt(2 * PI)
+                        ref = ref * f1.reshape([n if a == ax else 1 for a in range(nd)])
+                    if np.max(np.abs(q - ref)) > 1e-11:
+                        i = np.unravel_index(int(np.argmax(np.abs(q - ref))), shape)
+                        viol(ctx, key2, 'post-processing factor at index {} is {} but the documented '
+                             'value is {}'.format(i, q[i], ref[i]), desc)
+
+
 # --------------------------------------------------------------------------
 # C. plain DFT operators
 
@@ -731,11 +812,22 @@ def run_dft_complex_hc(ctx, B=None):
 # --------------------------------------------------------------------------
 # D. FourierTransform (continuous FT approximation)
 
+# shapes with EQUAL lengths on several axes: a per-axis quantity looked up by length instead of
+# by axis is only visible there (together with a per-axis shift tuple with different entries)
+EQUAL_SHAPES = [(3, 3), (4, 4), (5, 5), (3, 3, 3), (4, 4, 2), (2, 3, 3), (4, 2, 4)]
+
+
+def mixed_equal(shape, axes, shifts):
+    """two transformed axes of equal length with different shift flags"""
+    return any(shape[a] == shape[b] and sa != sb
+               for (a, sa), (b, sb) in itertools.combinations(list(zip(axes, shifts)), 2))
+
+
 def ft_configs(ctx):
     rng = ctx.rng
     cfgs = []
     shapes = [(n,) for n in range(2, 10)] + [(2, 4), (3, 4), (4, 3), (5, 3), (4, 5), (6, 2),
-                                             (2, 3, 4), (3, 2, 5), (4, 3, 2)]
+                                             (2, 3, 4), (3, 2, 5), (4, 3, 2)] + EQUAL_SHAPES
     for shape in shapes:
         for axes in axes_subsets(len(shape)):
             for shifts in itertools.product((True, False), repeat=len(axes)):
@@ -768,9 +860,20 @@ def ft_configs(ctx):
             if k not in seen and (c[4] or rng.random() < 0.25):
                 seen.add(k)
                 cfgs.append(c)
+        # mixed shift tuples over equal-length axes: every shape/axes/shift permutation once
+        # (non-half-complex; with halfcomplex a mixed tuple is the open finding F18e), both
+        # back-ends alternating, real and complex data
+        seen = set()
+        for c in cfgs_all:
+            if not c[4] and mixed_equal(c[0], c[1], c[2]) and c[3] in ('float64', 'complex128'):
+                k = (c[0], c[1], c[2])
+                if k not in seen:
+                    seen.add(k)
+                    cfgs.append(c)
     else:
         special = [c for c in cfgs_all if c[4] and c[1][-1] != len(c[0]) - 1 and len(c[0]) >= 2]
-        cfgs = cfgs[:3000] + special[:600]
+        mixed = [c for c in cfgs_all if mixed_equal(c[0], c[1], c[2])]
+        cfgs = cfgs[:3000] + special[:600] + mixed[:800]
     return cfgs
 
 
@@ -816,6 +919,8 @@ def run_ft_case(ctx, B, desc, oracle_only=False):
     ctx.case(sig, sample=dict(desc, x=str(x.ravel()[:4])) if x.size <= 4 else None)
     ctx.hit('ft/{}/{}/{}'.format(impl, 'hc' if hc else ('r2c' if realdom else 'c2c'),
                                  'allshift' if all(shifts) else 'mixedshift'))
+    if mixed_equal(shape, axes, shifts):
+        ctx.hit('ft/mixed shift + equal lengths')
     probs = []
     F, e = safe(lambda: FT(sp, axes=axes, shift=shifts, sign=sign, halfcomplex=hc, impl=impl))
     if e is not None:
@@ -1341,6 +1446,17 @@ def run_rejections(ctx, B):
 
 # --------------------------------------------------------------------------
 
+EXPECTED_BRANCHES = [
+    'ft/mixed shift + equal lengths', 'factors/mixed shift + equal lengths',
+    'factors_nd/mixed-shift-equal-lengths', 'factors_nd/mixed-shift', 'factors_nd/uniform-shift',
+    'ft/numpy/c2c/mixedshift', 'ft/pyfftw/c2c/mixedshift', 'ft/numpy/r2c/mixedshift',
+    'ft/pyfftw/r2c/mixedshift', 'ft/numpy/hc/allshift', 'ft/pyfftw/hc/allshift',
+    'ft/model-variant=sep', 'ft/pyfftw/planning_effort=measure',
+    'recip/odd/shift/hc', 'recip/even/noshift/hc', 'recip/odd/noshift/hc', 'recip/even/shift/hc',
+    'pre/shift', 'pre/noshift', 'dft/numpy/hc/minus', 'dft/pyfftw/hc/minus', 'dft/numpy/full/plus',
+    'dft/pyfftw/full/plus', 'wavelet/adjoint/default', 'wavelet/adjoint/weighting',
+    'wavelet/adjoint/bdry', 'ctor/rejects', 'ctor/accepts', 'padmode/err', 'padmode/ok']
+
 _STATE = {'extraction_broken': False}
 
 
@@ -1363,6 +1479,7 @@ def run(ctx):
     B = Batch(ctx)
     run_grids(ctx, B)
     run_factors(ctx, B)
+    run_factors_nd(ctx, B)
     B.flush()
     run_dft(ctx, B)
     run_dft_complex_hc(ctx, B)
@@ -1375,6 +1492,11 @@ def run(ctx):
     run_rejections(ctx, B)
     run_wavelets(ctx, B)
     B.flush()
+    # generator coverage that must not get lost silently
+    missing = [b for b in EXPECTED_BRANCHES if not ctx.branches.get(b)]
+    ctx.extra['unhit_expected_branches'] = missing
+    for b in missing:
+        ctx.disagree({'kind': 'coverage'}, 'expected branch never generated', b)
     # The runner starts `search` only when NO violation was seen; the open known finding is seen
     # on every run, so a broken extraction / a disagreement with only known violations would
     # never be searched.  Do it here.
@@ -1395,6 +1517,7 @@ def search(ctx, broken):
     try:
         run_grids(ctx, B)
         run_factors(ctx, B)
+        run_factors_nd(ctx, B)
         B.lines, B.cbs = [], []
         run_dft(ctx, B, oracle_only=True)
         run_ft(ctx, B, oracle_only=True)
